@@ -212,7 +212,6 @@ def gen_cases(ctx):
         o = order[m["elemType"]]
         for d in sorted(set([1, o])) if quick else range(1, o + 1):
             add(m, "Elastic", "volume", everything, kinds=("poly",), deg=d)
-        add(m, rng.choice(["Elastic", "Thermal"]), "surf", {"type": "face", "axis": rng.randrange(2), "value": [L, H][0] if False else None}, kinds=()) if False else None
         ax = rng.randrange(2)
         add(m, "Elastic", "surf", {"type": "face", "axis": ax, "value": [L, H][ax]}, kinds=("poly", "nodal"), deg=o)
     # Euler-Bernoulli beam, Hermitian line load on y, Lagrange on x
@@ -597,7 +596,7 @@ def run(ctx):
 
     # ---- selection algebra: Gallina model vs Get_Elements_Nodes ----
     import random as _random
-    body, ids = coq_select_cases(cases, results, budget=(0.3 if ctx.tier == "quick" else None), rng=_random.Random(ctx.seed + 9))
+    body, ids = coq_select_cases(cases, results, budget=(0.12 if ctx.tier == "quick" else None), rng=_random.Random(ctx.seed + 9))
     rc, o = ctx.coq_eval("select_cases.v", body, timeout=900)
     ctx.log("selection model evaluated")
     import re
@@ -709,7 +708,7 @@ def run(ctx):
         for kind, msg in problems:
             vk = c.get("vkind", "const")
             if vk == "nodal" and kind == "moment":
-                key = "moment:nodal-array:not-interpolated"
+                key = "moment:nodal-array:%s:%s:%s" % (c["simu"], c["load"], c["mesh"]["elemType"])
             else:
                 key = "%s:%s:%s:%s:%s" % (kind, c["simu"], c["load"], c["mesh"]["elemType"], vk)
             if key in seen:
@@ -718,7 +717,7 @@ def run(ctx):
             ctx.violation(key, "%s %s load on %s (%s, thickness %s, selection %s, %d loaded elements): %s"
                           % (c["simu"], c["load"], c["mesh"]["elemType"], vk, c.get("thickness"), c["selection"]["type"], nloaded, msg),
                           {"replay_py": REPLAY % dict(case=c, expected=exp_json, tol=TOL), "case": c, "expected": exp_json,
-                           **({"model_witness": "C09_moment_nodal_written_refuted", "proposed_fix": "proposed_fixes/C09-nodal-array-interpolation.diff"} if key.startswith("moment:nodal") else {})})
+                           **({"model_witness": "C09_moment_nodal_written_refuted", "proposed_fix": "proposed_fixes/C09-nodal-array-interpolation.diff"} if key.startswith("moment:nodal") and c["mesh"]["elemType"] not in ("TETRA10", "HEXA20", "HEXA27", "PRISM15", "PRISM18") else {})})
         if len(ctx.samples) < 4 and nloaded and not problems and not ex.get("pressure"):
             ctx.sample({"case": tag, "selection": c["selection"]["type"], "loaded_elements": nloaded, "expected_R": exp_json["R"], "thickness": c.get("thickness")})
     ctx.cov.update({"load_cases": len(cases), "case_distribution": dist, "pressure_sign_factor_vs_outward_normal": sorted(pressure_signs),
